@@ -573,9 +573,39 @@ impl Store {
     }
 }
 
+#[cfg(feature = "verif")]
+impl Store {
+    /// Raw contents of the three partitions and the context registry:
+    /// (stream key/value pairs, idx_topic keys, idx_context keys, contexts).
+    #[allow(clippy::type_complexity)]
+    pub fn verif_dump(&self) -> (Vec<(Vec<u8>, Vec<u8>)>, Vec<Vec<u8>>, Vec<Vec<u8>>, Vec<Scru128Id>) {
+        let stream = self
+            .frame_partition
+            .iter()
+            .map(|r| r.unwrap())
+            .map(|(k, v)| (k.to_vec(), v.to_vec()))
+            .collect();
+        let idx_topic = self.idx_topic.keys().map(|k| k.unwrap().to_vec()).collect();
+        let idx_context = self.idx_context.keys().map(|k| k.unwrap().to_vec()).collect();
+        let mut contexts: Vec<_> = self.contexts.read().unwrap().iter().cloned().collect();
+        contexts.sort();
+        (stream, idx_topic, idx_context, contexts)
+    }
+}
+
 fn spawn_gc_worker(mut gc_rx: UnboundedReceiver<GCTask>, store: Store) {
     std::thread::spawn(move || {
         while let Some(task) = gc_rx.blocking_recv() {
+            #[cfg(feature = "verif")]
+            crate::verif::sync(
+                match &task {
+                    GCTask::Remove(_) => "gc.remove",
+                    GCTask::CheckHeadTTL { .. } => "gc.head",
+                    GCTask::Drain(_) => "gc.drain",
+                },
+                None,
+                0,
+            );
             match task {
                 GCTask::Remove(id) => {
                     let _ = store.remove(&id);
@@ -617,6 +647,8 @@ fn is_expired(id: &Scru128Id, ttl: &Duration) -> bool {
         .duration_since(std::time::UNIX_EPOCH)
         .unwrap()
         .as_millis() as u64;
+    #[cfg(feature = "verif")]
+    let now_ms = crate::verif::now_override().unwrap_or(now_ms);
 
     now_ms >= expires_ms
 }
